@@ -222,7 +222,13 @@ func c09sites(p *Program, r *Report, rule string) {
 			}
 		}
 		n++
-		r.Check(rule, fname, cs.Name, p.InstrPos(cs.Instr), okFns[fname], "transport reads happen only in Conn.readFrameHeader / Conn.readFramePayload (and readFrameHeader called inside the former's window): nothing reads from the connection outside an armed timeout window", "read "+cs.Name+" in "+fname)
+		okOwner := true
+		for _, owner := range p.siteOwners(cs.Fn) {
+			if !okFns[owner] {
+				okOwner = false
+			}
+		}
+		r.Check(rule, fname, cs.Name, p.InstrPos(cs.Instr), okOwner, "transport reads happen only in Conn.readFrameHeader / Conn.readFramePayload (and readFrameHeader called inside the former's window): nothing reads from the connection outside an armed timeout window", "read "+cs.Name+" in "+fname)
 	}
 	r.Floor(rule, 4)
 	for _, cs := range emitterSites(p) {
@@ -234,7 +240,12 @@ func c09sites(p *Program, r *Report, rule string) {
 		if fname == "netConn.RemoteAddr" || fname == "netConn.LocalAddr" {
 			continue
 		}
-		ok := fname == "Conn.writeFrame" || fname == "Conn.writeFramePayload" || fname == "writeFrameHeader"
+		ok := true
+		for _, owner := range p.siteOwners(cs.Fn) {
+			if !(owner == "Conn.writeFrame" || owner == "Conn.writeFramePayload" || owner == "writeFrameHeader") {
+				ok = false
+			}
+		}
 		r.Check(rule, fname, cs.Name, p.InstrPos(cs.Instr), ok, "transport writes happen only in writeFrame and the two helpers it calls inside its armed window", "write "+cs.Name+" in "+fname)
 	}
 	// the helpers are called only from the arming function (inside the window: C09.armed)
